@@ -1,0 +1,172 @@
+//go:build verif
+
+// Contracts for package register, read by the verification-condition generator in /verif/govc.
+// This file contains comments only; it is compiled only with -tags verif and adds no code.
+
+package register
+
+/*@
+// ---------------------------------------------------------------------------------------------
+// Every register reporter writes through one buffered writer r.output created on the configured sink.
+// BufStep(b) (assumed/20_sink.spec) summarises any number of writes through b: a write that is lost makes the
+// writer's error sticky, so the final Flush reports it (C17).
+// ---------------------------------------------------------------------------------------------
+func newRegReporterTemplate returns (r)
+  props C17 C08 C02
+  modifies ghost(bufSink, bufSticky)
+  ensures @fresh r != nil && fresh(r) && r.output != nil && fresh(r.output) && r.template != nil && r.db == db && r.config == config
+  ensures @sink [C17] bufSink == store(old(bufSink), r.output, payload(config.Output)) && bufSticky == store(old(bufSticky), r.output, false)
+
+// the default register: the day's reportItem (GetReportItem, C02) is rendered by the template
+func (*regReporterTemplate).Process returns (err)
+  props C17 C08 C02
+  requires @args r != nil && ln != nil && r.output != nil && r.template != nil && DBIs(r.db)
+  modifies ghost(accKey, accP, accN, accH, bufSticky, sinkFailed, sinkPend)
+  ensures @sink [C17] BufStep(r.output)
+  ensures @reports-loss [C17] err == nil ==> bufSticky[r.output] == old(bufSticky[r.output])
+
+func (*regReporterTemplate).Flush returns (err)
+  props C17 C08
+  requires @args r != nil && r.output != nil
+  modifies ghost(bufSticky, sinkFailed, sinkPend)
+  ensures @sink [C17] BufStep(r.output)
+  ensures @reports-loss [C17] (err != nil) == bufSticky[r.output] && (err == nil ==> sinkPend[bufSink[r.output]] == 0)
+
+// single-food register
+func newSingleFoodReporter returns (r)
+  props C17 C08
+  modifies ghost(bufSink, bufSticky)
+  ensures @fresh r != nil && fresh(r) && r.output != nil && fresh(r.output) && r.db == db && r.config == config
+  ensures @sink [C17] bufSink == store(old(bufSink), r.output, payload(config.Output)) && bufSticky == store(old(bufSticky), r.output, false)
+
+func (*singleFoodReporter).Process returns (err)
+  props C17 C08
+  requires @args r != nil && ln != nil && r.output != nil
+  modifies ghost(bufSticky, sinkFailed, sinkPend, prLen, prSink, prArg, prArgs)
+  ensures @sink [C17] BufStep(r.output)
+  loop 1 { invariant @sink r == old(r) && ln == old(ln) && r.output == old(r.output) && BufStep(r.output) }
+
+func (*singleFoodReporter).Flush returns (err)
+  props C17 C08
+  requires @args r != nil && r.output != nil
+  modifies ghost(bufSticky, sinkFailed, sinkPend)
+  ensures @sink [C17] BufStep(r.output)
+  ensures @reports-loss [C17] (err != nil) == bufSticky[r.output] && (err == nil ==> sinkPend[bufSink[r.output]] == 0)
+
+// single-element register
+func newSingleReporter returns (r)
+  props C17 C08
+  modifies ghost(bufSink, bufSticky)
+  ensures @fresh r != nil && fresh(r) && r.output != nil && fresh(r.output) && r.db == db && r.config == config
+  ensures @sink [C17] bufSink == store(old(bufSink), r.output, payload(config.Output)) && bufSticky == store(old(bufSticky), r.output, false)
+
+func (*singleReporter).Process returns (err)
+  props C17 C08
+  requires @args r != nil && ln != nil && r.output != nil && DBOk(r.db)
+  modifies ghost(accKey, accP, accN, accH, bufSticky, sinkFailed, sinkPend, prLen, prSink, prArg, prArgs)
+  ensures @sink [C17] BufStep(r.output) && err == nil
+  loop 1 { invariant @acc r == old(r) && ln == old(ln) && WfAcc(acc) && AccView(acc) && fresh(acc) && singleElement == r.config.SingleElement && (forall x string :: {x in accH[acc]} x in accH[acc] ==> x == singleElement) && (forall k string :: {acc[k]} k in acc ==> arr(acc[k]) >= old(alloc())) }
+  loop 2 { invariant @acc r == old(r) && ln == old(ln) && WfAcc(acc) && AccView(acc) && fresh(acc) && singleElement == r.config.SingleElement && (forall x string :: {x in accH[acc]} x in accH[acc] ==> x == singleElement) && (forall k string :: {acc[k]} k in acc ==> arr(acc[k]) >= old(alloc())) }
+
+// the row printer is verified as part of its caller
+func (*singleReporter).printSingleElementRow
+  inline
+
+func (*singleReporter).Flush returns (err)
+  props C17 C08
+  requires @args r != nil && r.output != nil
+  modifies ghost(bufSticky, sinkFailed, sinkPend)
+  ensures @sink [C17] BufStep(r.output)
+  ensures @reports-loss [C17] (err != nil) == bufSticky[r.output] && (err == nil ==> sinkPend[bufSink[r.output]] == 0)
+
+// single element grouped by food: one accumulator for the whole walk, printed sorted by food in Flush
+pred EbfInv(r *elementByFoodReporter) := r != nil && r.output != nil && WfAcc(r.acc) && AccView(r.acc) && DBOk(r.db)
+
+func newElementByFoodReporter returns (r)
+  props C17 C08
+  modifies ghost(bufSink, bufSticky, accP, accN, accH)
+  ensures @fresh r != nil && fresh(r) && r.output != nil && fresh(r.output) && r.db == db && r.config == config && fresh(r.acc) && WfAcc(r.acc) && AccView(r.acc)
+  ensures @sink [C17] bufSink == store(old(bufSink), r.output, payload(config.Output)) && bufSticky == store(old(bufSticky), r.output, false)
+
+func (*elementByFoodReporter).Process returns (err)
+  props C17 C08
+  requires @args ln != nil && EbfInv(r)
+  modifies mapof(r.acc), arrays(float64)
+  modifies ghost(accKey, accP, accN, accH)
+  ensures @inv EbfInv(r) && err == nil
+  loop 1 { invariant @inv r == old(r) && ln == old(ln) && r.acc == old(r.acc) && r.output == old(r.output) && r.db == old(r.db) && EbfInv(r) && singleElement == r.config.SingleElement }
+  loop 2 { invariant @inv r == old(r) && ln == old(ln) && r.acc == old(r.acc) && r.output == old(r.output) && r.db == old(r.db) && EbfInv(r) && singleElement == r.config.SingleElement && node != nil }
+
+func (*elementByFoodReporter).printSingleElementByFoodRow
+  inline
+
+func (*elementByFoodReporter).Flush returns (err)
+  props C17 C08 C05
+  requires @args EbfInv(r)
+  modifies ghost(bufSticky, sinkFailed, sinkPend, prLen, prSink, prArg, prArgs)
+  ensures @sink [C17] BufStep(r.output)
+  ensures @reports-loss [C17] (err != nil) == bufSticky[r.output] && (err == nil ==> sinkPend[bufSink[r.output]] == 0)
+  loop 1 {
+    invariant @count i == #it && len(keys) == #n && r == old(r) && r.acc == old(r.acc) && r.output == old(r.output) && fresh(arr(keys)) && EbfInv(r)
+    invariant @copied forall j int :: {keys[j]} 0 <= j && j < #it ==> keys[j] == #ord[j]
+  }
+  ghost after call 1 Strings {
+    lassert @keys-perm forall p int :: {keys[p]} 0 <= p && p < len(keys) ==> keys[p] in r.acc && keys[p] == at(call, elems(keys))[PermBack(at(call, elems(keys)), elems(keys), p)]
+    assert @keys forall p int :: {keys[p]} 0 <= p && p < len(keys) ==> keys[p] in r.acc
+    forget call
+  }
+  loop 2 {
+    invariant @inv r == old(r) && r.acc == old(r.acc) && r.output == old(r.output) && EbfInv(r) && mapval(r.acc) == old(mapval(r.acc)) && BufStep(r.output)
+    invariant @keys forall p int :: {keys[p]} 0 <= p && p < len(keys) ==> keys[p] in r.acc
+  }
+
+// the old hand-written register (--use-old-reg-reporter): every line goes through r.output
+func newRegReporter returns (r)
+  props C17 C08
+  modifies ghost(bufSink, bufSticky)
+  ensures @fresh r != nil && fresh(r) && r.output != nil && fresh(r.output) && r.db == db && r.config == config
+  ensures @sink [C17] bufSink == store(old(bufSink), r.output, payload(config.Output)) && bufSticky == store(old(bufSticky), r.output, false)
+
+func (*regReporter).Process returns (err)
+  props C17 C08
+  requires @args r != nil && ln != nil && r.output != nil && DBOk(r.db)
+  calluse Sort#1 strings
+  modifies ghost(accKey, accP, accN, accH, bufSticky, sinkFailed, sinkPend, prLen, prSink, prArg, prArgs)
+  ensures @sink [C17] BufStep(r.output) && err == nil
+  loop 1 { invariant @inv r == old(r) && ln == old(ln) && WfAcc(acc) && AccView(acc) && fresh(acc) && (forall k string :: {acc[k]} k in acc ==> arr(acc[k]) >= old(alloc())) && BufStep(r.output) }
+  loop 2 { invariant @inv r == old(r) && ln == old(ln) && WfAcc(acc) && AccView(acc) && fresh(acc) && (forall k string :: {acc[k]} k in acc ==> arr(acc[k]) >= old(alloc())) && BufStep(r.output) }
+  loop 3 {
+    invariant @inv r == old(r) && ln == old(ln) && WfAcc(acc) && BufStep(r.output) && len(ss) == #it && (arr(ss) == 0 || arr(ss) >= old(alloc()))
+    invariant @copied forall j int :: {ss[j]} 0 <= j && j < #it ==> ss[j] == #ord[j]
+  }
+  ghost after call 1 Sort {
+    lassert @keys-perm forall p int :: {ss[p]} 0 <= p && p < len(ss) ==> ss[p] in acc && ss[p] == at(call, elems(ss))[PermBack(at(call, elems(ss)), elems(ss), p)]
+    assert @keys forall p int :: {ss[p]} 0 <= p && p < len(ss) ==> ss[p] in acc
+    forget call
+  }
+  loop 4 {
+    invariant @inv r == old(r) && ln == old(ln) && WfAcc(acc) && BufStep(r.output) && mapval(acc) == at(pre4, mapval(acc))
+    invariant @keys forall p int :: {ss[p]} 0 <= p && p < len(ss) ==> ss[p] in acc
+  }
+
+// the line printers are verified as part of Process
+func (*regReporter).cNum
+  inline
+func (*regReporter).printDate
+  inline
+func (*regReporter).printElement
+  inline
+func (*regReporter).printIngredient
+  inline
+func (*regReporter).printTotalHeader
+  inline
+func (*regReporter).printTotalRow
+  inline
+
+func (*regReporter).Flush returns (err)
+  props C17 C08
+  requires @args r != nil && r.output != nil
+  modifies ghost(bufSticky, sinkFailed, sinkPend)
+  ensures @sink [C17] BufStep(r.output)
+  ensures @reports-loss [C17] (err != nil) == bufSticky[r.output] && (err == nil ==> sinkPend[bufSink[r.output]] == 0)
+@*/
